@@ -6,6 +6,7 @@ W=${1:-/var/tmp/vdev}
 rm -rf $W; mkdir -p $W; cd $W
 cp -r /repo/go.mod /repo/go.sum /repo/cmd /repo/pkg .
 mkdir vsim && cp -r /verif/sim/* vsim/
+go1.26.8 mod edit -require=github.com/anishathalye/porcupine@v1.3.0
 /verif/bin/simgen -dir $W -report $W/simgen.json ./pkg/... ./cmd/... >/dev/null
 go1.26.8 test -c -trimpath -o $W/simcheck.test ./vsim/harness
 echo built $W/simcheck.test
